@@ -269,26 +269,31 @@ Section Model.
       end.
   End Children.
 
+  (* core/config.py:135-136  structure["pipeline"] on a dict: the handler h gets the value *)
+  Section FindPipeline.
+    Context {A : Type}.
+    Variable h : pvalue -> A.
+    Fixpoint findp (m0 : list (str * pvalue)) : option A :=
+      match m0 with
+      | [] => None
+      | kv :: r => if str_eqb s_pipeline (fst kv) then Some (h (snd kv)) else findp r
+      end.
+  End FindPipeline.
+
   (* PipelineTranslator.translate_hierarchy (core/config.py:134-161); the `except` branch is
      Translator.translate_hierarchy (mapping.py:41-73), whose recursive calls come back here *)
   Fixpoint ptr (w : str) (ckw : list (str * pvalue)) (v : pvalue) {struct v} : M pvalue :=
     match v with
     | PM m =>
-        match (fix findp (m0 : list (str * pvalue)) : option (M pvalue) :=       (* :136 structure["pipeline"] *)
-                 match m0 with
-                 | [] => None
-                 | kv :: r =>
-                     if str_eqb s_pipeline (fst kv) then
-                       Some match snd kv with
-                            | PL items =>
-                                bindM (tr_pipe (fun w1 c x => ptr w1 c x) w 0 items)
-                                      (fun st => retM (PL (rev (snd st))))       (* :161 *)
-                            | PS (SStr s) =>      (* iterating a str: 1-character strings pass unchanged *)
-                                retM (PL (map (fun ch => PS (SStr [ch])) s))
-                            | PM keys => retM (PL (map (fun kv => PS (SStr (fst kv))) keys))
-                            | _ => failM (PExc ExType)                            (* enumerate(non-iterable) *)
-                            end
-                     else findp r
+        match findp (fun pv =>                                               (* :136 structure["pipeline"] *)
+                 match pv with
+                 | PL items =>
+                     bindM (tr_pipe (fun w1 c x => ptr w1 c x) w 0 items)
+                           (fun st => retM (PL (rev (snd st))))                  (* :161 *)
+                 | PS (SStr s) =>      (* iterating a str: 1-character strings pass unchanged *)
+                     retM (PL (map (fun ch => PS (SStr [ch])) s))
+                 | PM keys => retM (PL (map (fun kv => PS (SStr (fst kv))) keys))
+                 | _ => failM (PExc ExType)                                       (* enumerate(non-iterable) *)
                  end) m with
         | Some run => run
         | None =>                                                                 (* :137-140 super() *)
@@ -357,3 +362,81 @@ Section Model.
                          end)
     end.
 End Model.
+
+(* ------------------------------------------------------------------ Part 4: specification *)
+(* what a pipeline element describes: class, positional and keyword arguments *)
+Record espec := mkSpec { sp_cls : cls; sp_args : list pvalue; sp_kw : list (str * pvalue) }.
+
+(* argument values the full property speaks about: anything YAML can express; the only reserved
+   key below a legacy element is __type__ (nested legacy constructors are property C19) *)
+Fixpoint no_nested_type (v : pvalue) : bool :=
+  match v with
+  | PL l => forallb no_nested_type l
+  | PM m => negb (has_key s_type m) && forallb (fun kv => no_nested_type (snd kv)) m
+  | _ => true
+  end.
+
+(* the guard of the _partial theorems: additionally no nested key named "pipeline" *)
+Fixpoint plain (v : pvalue) : bool :=
+  match v with
+  | PL l => forallb plain l
+  | PM m => negb (has_key s_pipeline m) && negb (has_key s_type m)
+            && forallb (fun kv => plain (snd kv)) m
+  | _ => true
+  end.
+
+Section Spec.
+  Variable resolve : str -> rres.
+  Variable leaf : cls -> bool.
+  Variable fails : cls -> bool.
+
+  (* a loaded element of one of the four forms; `guard` constrains the keyword values of legacy
+     __type__ mappings (values of !Tag elements are never looked at by the translator) *)
+  Definition elem_spec (guard : pvalue -> bool) (v : pvalue) : option espec :=
+    match v with
+    | PTag KTemplate c args kw =>                   (* !Tag {..} / !Tag [..] / !Tag *)
+        if has_key s_target kw then None else Some (mkSpec c args kw)
+    | PM m =>                                        (* {__type__: name, key: value, ...} *)
+        match lookup s_type m with
+        | Some (PS (SStr name)) =>
+            match resolve name with
+            | RCallable c =>
+                if nodup_keys (keys m) && negb (has_key s_args m) && negb (has_key s_target m)
+                   && negb (has_key s_pipeline m) && forallb (fun kv => guard (snd kv)) m
+                then Some (mkSpec c [] (remove s_type m)) else None
+            | _ => None
+            end
+        | _ => None
+        end
+    | _ => None
+    end.
+
+  (* owners ..., then exactly one pool *)
+  Fixpoint shape (l : list espec) : bool :=
+    match l with
+    | [] => false
+    | [s] => leaf (sp_cls s)
+    | s :: r => negb (leaf (sp_cls s)) && shape r
+    end.
+
+  (* the construction log of a chain: rs = elements LAST TO FIRST; each is constructed once, with
+     exactly its configured arguments, its target being the object constructed just before *)
+  Fixpoint chain_events (id : nat) (prev : option pvalue) (rs : list espec) : list event :=
+    match rs with
+    | [] => []
+    | s :: r => mkEv id (sp_cls s) prev (sp_args s) (sp_kw s)
+                :: chain_events (S id) (Some (PRef id)) r
+    end.
+  Definition expected_log (specs : list espec) : list event := chain_events 0 None (rev specs).
+  (* the section content: n objects in configuration order; element i is object n-1-i *)
+  Definition expected_refs (n : nat) : list pvalue := map PRef (rev (seq 0 n)).
+
+  Definition tmpl_of (s : espec) : tmpl := mkT (sp_cls s) (sp_args s) (sp_kw s).
+
+  (* how the failure of element x's constructor (class c, position i) surfaces *)
+  Definition elem_err (i : nat) (x : pvalue) (c : cls) : pyexc :=
+    match x with
+    | PTag _ _ _ _ => PExc (ExUser c)                                   (* raw, from `>>` *)
+    | _ => PConf (WExc (ExUser c)) (Some (where_idx [] i))               (* via Translator's except *)
+    end.
+End Spec.
